@@ -12,8 +12,16 @@ vars == <<sh, l>>
 PredOK(e, x, da, db) == \A i \in 1..Len(PredNames) :
      LET nm == PredNames[i] IN e.preds[i] = PredX(nm, x, da, db)
 
+CheckMatches(e) ==
+  \* the property says nothing about malformed strings beyond what follows from the patterns: they never match
+  IF ~ValidMatrix(e.m) \/ ~ValidPattern(e.p) THEN (IF e.err # "" \/ ~e.res THEN "ok" ELSE "malformed-matrix-or-pattern-matched")
+  ELSE IF e.err # "" THEN "relatematches-error"
+  ELSE IF e.res # Matches(e.m, e.p) THEN "relatematches-result"
+  ELSE "ok"
+
 Check(e) ==
   IF e.panic # "" THEN "panic"
+  ELSE IF e.kind = "matches" THEN CheckMatches(e)
   ELSE IF ~PartsValid(e.a) \/ ~PartsValid(e.b) THEN "skip:invalid-operand"
   ELSE IF ~PartsDisjoint(e.a) \/ ~PartsDisjoint(e.b) THEN "skip:overlapping-members"
   ELSE LET ga == Merge(e.a) gb == Merge(e.b) IN
